@@ -649,6 +649,24 @@ func (e *Env) call(n *SCall) *Val {
 			ref = "(sptr " + v.S + ")"
 		}
 		return &Val{T: tBool, S: "(>= " + ref + " " + e.pre.alloc + ")"}
+	case "implements":
+		// implements(v, type[I]): the dynamic type of v (non-nil) implements interface I
+		if !need(2) {
+			return e.fail("")
+		}
+		tl, ok := n.Args[1].(*STypeLit)
+		if !ok {
+			return e.fail("implements(v, type[I])")
+		}
+		it, err := e.resolveType(tl.Type)
+		if err != nil {
+			return e.fail("%v", err)
+		}
+		if _, ok := types.Unalias(it).Underlying().(*types.Interface); !ok {
+			return e.fail("implements: %s is not an interface", tl.Type)
+		}
+		v := arg(0)
+		return &Val{T: tBool, S: vc.implementsTerm(v.S, it)}
 	case "loopold":
 		// object (or whole backing array) allocated before the enclosing loop was entered
 		v := arg(0)
